@@ -171,16 +171,19 @@ def enum_grammars(tier: str, rng) -> List[dict]:
             k += 1
     # grammars none of whose rules has one of the two shapes expected to break viterbi, so that the
     # remaining clauses are exercised too
-    k = tries = 0
-    while k < n_plain and tries < 400 * n_plain:
-        tries += 1
-        g = G.random_grammar(rng, (), recursive=(tries % 3 == 0))
-        if not _ok_for_viterbi(g) or not any(r["edges"] for r in g["rules"]):
-            continue
-        g = to_log_weights(g, rng)
-        g["meta"] = {"family": "random-plain" + ("-recursive" if G.is_recursive(g) else "")}
-        if add(g):
-            k += 1
+    for rec, target in ((False, n_plain), (True, n_plain // 3)):
+        k = tries = 0
+        while k < target and tries < 2000 * target:
+            tries += 1
+            g = G.random_grammar(rng, (), recursive=rec)
+            if G.is_recursive(g) != rec or not _ok_for_viterbi(g) or not any(r["edges"] for r in g["rules"]):
+                continue
+            g = to_log_weights(g, rng)
+            g["meta"] = {"family": "random-plain" + ("-recursive" if rec else "")}
+            if not _scope(g):       # needs a start assignment with a finite best weight
+                continue
+            if add(g):
+                k += 1
     return out
 
 
